@@ -24,10 +24,11 @@ ASSUME LET all == All IN
 
 \* sequence cases: all ordered pairs over PairPool, plus NSEQ seeded sequences of every length 3..8
 NSeq == IF "NSEQ" \in DOMAIN IOEnv THEN atoi(IOEnv.NSEQ) ELSE 0
+NSeqFor(fmt) == IF fmt = "pubsub-live" /\ NSeq > 150 THEN 150 ELSE NSeq   \* live bursts cost real time
 SeqCases ==
     UNION {UNION {
         {SeqCase(rec, fmt, <<a, b>>) : a \in PairsFor(rec, fmt), b \in PairsFor(rec, fmt)}
-        \cup UNION {{SeqCase(rec, fmt, s) : s \in RandomSubset(NSeq, [1..k -> SeqPool(rec, fmt)])} : k \in 3..8}
+        \cup UNION {{SeqCase(rec, fmt, s) : s \in RandomSubset(NSeqFor(fmt), [1..k -> SeqPool(rec, fmt)])} : k \in 3..8}
         : fmt \in SeqFormats(rec)} : rec \in Recs}
 ASSUME "SEQ_FILE" \in DOMAIN IOEnv => ndJsonSerialize(IOEnv.SEQ_FILE, SetToSeq(SeqCases))
 
